@@ -699,6 +699,16 @@ func GoroutinesIn(substr string) int {
 	return cnt
 }
 
+// AllStacks returns a dump of all goroutines (bounded to max bytes) for violation replays.
+func AllStacks(max int) string {
+	buf := make([]byte, 8<<20)
+	n := runtime.Stack(buf, true)
+	if n > max {
+		n = max
+	}
+	return string(buf[:n])
+}
+
 // cacheWriterFrame marks the goroutines of the directory cache that still own a wip file:
 // the write-behind goroutine started by Commit (SyncAdd=false) and any caller inside the
 // cache package.
